@@ -229,6 +229,13 @@ pub fn gen_c11(rng: &mut Rng, thorough: bool, run_index: u64) -> LspTrace {
         // a second spelling of the URI of the first document (percent-encoded letter, dot segment)
         uris.push(*rng.pick(&["ws:%61.st", "ws:./a.st", "ws:sub/../a.st"]));
     }
+    let mut texts = texts;
+    if rng.chance(1, 150) {
+        // a document of more than a MiB (many short comment lines in front of one of the texts)
+        let base = rng.pick(&texts).clone();
+        let line = "(* generated padding line *)\n";
+        texts.push(format!("{}{}", line.repeat(1_100_000 / line.len() + rng.below(2000)), base));
+    }
     let use_ws_folder = rng.chance(1, 3);
     let disk_active = !use_ws_folder && rng.chance(1, 4);
     if disk_active {
@@ -389,6 +396,11 @@ fn with_trivia(rng: &mut Rng, text: &str) -> String {
                 out.push_str("\t");
                 out.push_str(line);
             }
+            5 if !line.contains("(*") && line.ends_with('\n') && !line.contains('\'') => {
+                // a line comment (common though not standard; the lexer knows it) at the end of the line
+                out.push_str(line.trim_end_matches('\n').trim_end_matches('\r'));
+                out.push_str(" // note\n");
+            }
             4 if line.trim().len() > 3 => {
                 // a form feed (layout in IEC 61131-3, not a line terminator for an editor)
                 out.push('\u{c}');
@@ -396,6 +408,10 @@ fn with_trivia(rng: &mut Rng, text: &str) -> String {
             }
             _ => out.push_str(line),
         }
+    }
+    if rng.chance(1, 10) {
+        // the document ends in a line comment without a final line break
+        out = format!("{}\n// last line, no line break", out.trim_end());
     }
     if rng.chance(1, 4) {
         out = out.replace('\n', "\r\n");
@@ -1535,6 +1551,12 @@ fn strip_trailing_layout(text: &str) -> &str {
 }
 
 fn ends_in_invalid_blank(text: &str) -> bool {
+    // (inside a line comment anything goes up to the end of the line)
+    let stripped = strip_trailing_layout(text);
+    let last_line = stripped.rsplit('\n').next().unwrap_or("");
+    if last_line.contains("//") {
+        return false;
+    }
     // a CR is layout only as part of CR LF
     strip_trailing_layout(text).ends_with(['\u{b}', '\r', '\u{a0}', '\u{3000}', '\u{1}'])
 }
